@@ -87,7 +87,7 @@ def generate(rng, tier, prop='C19'):
             elif q < 0.45:
                 ops.append(['is_alive'])
             elif q < 0.7:
-                ops.append(['join', rng.choice([None, 0.0, 0.001, 0.3, 1.0, 2.5, 5.0])])
+                ops.append(['join', rng.choice([None, 0.0, 0, 0.001, 0.3, 1.0, 2.5, 5.0, -0.05, -1])])   # (a deadline loop passes what is left: <= 0 once it is used up)
             elif q < 0.85:
                 ops.append(['sleep', rng.choice([0.01, 0.3, 1.0, 2.5])])
             elif q < 0.9:
@@ -285,7 +285,7 @@ def execute(case, seed, choices=None):
                     if res is None:
                         bad('C19.j', 'no-exitcode-after-join', 'returncode None after an untimed join')
                 else:
-                    if te - tb > arg + 0.0011 + 1e-9:
+                    if te - tb > max(arg, 0) + 0.0011 + 1e-9:
                         bad('C19.j', 'join-overran-timeout', 'join(%r) took %.4fs' % (arg, te - tb))
                     if res is None:
                         k.probe('join_timed_out')
